@@ -31,6 +31,16 @@ func (i *documentIndex) Keys() []string {
 	return keys
 }
 
+// snapshot returns the documents as they are at this moment. UpdateIndex never
+// modifies a map once it is in place (it builds a new one and swaps it in), so
+// what is returned can be read without the lock, and is ONE state of the view
+func (i *documentIndex) snapshot() map[string][]byte {
+	i.muIndex.RLock()
+	defer i.muIndex.RUnlock()
+
+	return i.index
+}
+
 func (i *documentIndex) Get(key string) interface{} {
 	i.muIndex.RLock()
 	defer i.muIndex.RUnlock()
